@@ -120,7 +120,7 @@ let show_f dt shape elems = "ok " ^ show_ints shape ^ " ;" ^ (if elems = [] then
 let zeros n = List.init n (fun _ -> 0.0)
 let show_outcome dt shape zs = function
   | Done m -> show_f dt shape m
-  | Refused -> show_f dt shape zs      (* the bool is dropped: the caller sees the value-initialised output *)
+  | Refused -> show_f dt shape zs      (* not reachable through eval_*_top: refused views fall back to the default evaluator *)
   | Undefined -> "ub"
 let show_option dt shape = function Some m -> show_f dt shape m | None -> "ub"
 
@@ -181,7 +181,8 @@ let () =
     | None -> { model = "nothing"; spec = "unspecified"; dom = false }
     | Some (os, ls', rs') ->
       let nat = List.map i2n in
-      let spec = show_f dt os (spec_binary_bc f 0.0 (nat os) (nat ls') (nat rs') lx rx) in
+      let scalar = spec_binary_bc f 0.0 (nat os) (nat ls') (nat rs') lx rx in
+      let spec = show_f dt os scalar in
       if ctx = "none" then { model = spec; spec; dom = true } else
       let n = i2n (lanes ctx dt) in
       let col = is_col rest 2 in
@@ -193,10 +194,11 @@ let () =
           if ls = rs then show_option dt os (eval_binary_same_gen n f (i2n size) lmem rx lx rx zs)
           else if List.length ls = 2 && List.length rs = 2
           then show_option dt os (eval_binary_2d n f (pair_of_list os) (pair_of_list ls) (pair_of_list rs) lmem rx zs)
-          else show_f dt os zs end
-        else show_outcome dt os zs (eval_binary n f (nat os) (nat ls) (nat rs) lx rx zs) in
-      let dom = not col && (ls = rs ||
-                  (List.length ls = 2 && List.length rs = 2 && b2d_dom (lanes ctx dt) (two os) (two ls) (two rs))) in
+          else spec end
+        else show_outcome dt os zs (eval_binary_top n f (nat os) (nat ls) (nat rs) lx rx zs scalar) in
+      (* same shape: C12_binary_same_eq; both 2-d: C12_binary_2d_eq_on_domain; anything else: C12_binary_refused_falls_back *)
+      let dom = not col && (ls = rs || not (List.length ls = 2 && List.length rs = 2)
+                            || b2d_dom (lanes ctx dt) (two os) (two ls) (two rs)) in
       { model = m; spec; dom });
   register "outer" (fun a ->
     let (ctx, dt, op, den, rest) = args_common a in
@@ -222,12 +224,13 @@ let () =
     match axis with
     | None ->
         let oshape = if keep then List.map (fun _ -> 1) shape else [] in
-        let spec = if exact then show_f dt oshape [spec_reduce_full f 0.0 init xs] else "unspecified" in
+        let scalar = [spec_reduce_full f 0.0 init xs] in
+        let spec = if exact then show_f dt oshape scalar else "unspecified" in
         if ctx = "none" then { model = spec; spec; dom = true } else
         let m = show_outcome dt oshape [0.0]
-                  (eval_reduction (i2n n) f 0.0 ident (List.map i2n shape) (List.map (fun _ -> i2n 1) shape) None xs) in
-        (* C12_reduce_full_on_domain: no initial *)
-        { model = m; spec; dom = exact && init = None }
+                  (eval_reduction_top (i2n n) f 0.0 ident (List.map i2n shape) (List.map (fun _ -> i2n 1) shape) None init xs scalar) in
+        (* C12_reduce_full_on_domain (initial included) *)
+        { model = m; spec; dom = exact }
     | Some ax ->
         let ax' = if ax < 0 then ax + dim else ax in
         if ax' < 0 || ax' >= dim then { model = "unspecified"; spec = "unspecified"; dom = false } else
@@ -235,14 +238,15 @@ let () =
         let oshape = if keep then outk else List.filteri (fun i _ -> i <> ax') shape in
         let outer = prod (List.filteri (fun i _ -> i < ax') shape) and k = List.nth shape ax'
         and inner = prod (List.filteri (fun i _ -> i > ax') shape) in
-        let spec = if exact then show_f dt oshape (spec_reduce_axis f 0.0 init (i2n outer) (i2n k) (i2n inner) xs) else "unspecified" in
+        let scalar = spec_reduce_axis f 0.0 init (i2n outer) (i2n k) (i2n inner) xs in
+        let spec = if exact then show_f dt oshape scalar else "unspecified" in
         if ctx = "none" then { model = spec; spec; dom = true } else
         let horizontal = (ax' = dim - 1) in
         let m = show_outcome dt oshape (zeros (prod oshape))
-                  (eval_reduction (i2n n) f 0.0 ident (List.map i2n shape) (List.map i2n outk)
-                     (Some (ax < 0, i2n (abs ax))) xs) in
+                  (eval_reduction_top (i2n n) f 0.0 ident (List.map i2n shape) (List.map i2n outk)
+                     (Some (ax < 0, i2n (abs ax))) init xs scalar) in
         let full = prod oshape = 1 in
-        (* C12_reduce_full_on_domain / C12_reduce_horizontal_core; the vertical arm is proved for its 2-d core,
-           the n-d reshape in front of it is corresponded only *)
-        let dom = exact && init = None && (full || horizontal) in
+        (* C12_reduce_full_on_domain / C12_reduce_horizontal_core (initial included); the vertical arm is proved for
+           its 2-d core, the n-d reshape in front of it is corresponded only *)
+        let dom = exact && (full || horizontal) in
         { model = m; spec; dom })
